@@ -8,6 +8,7 @@ import (
 	"fmt"
 	"sort"
 	"sync"
+	"sync/atomic"
 	"time"
 
 	"github.com/gotd/td/bin"
@@ -320,6 +321,235 @@ func runConn(seed uint64, workers, opsPer int) connResult {
 	return res
 }
 
+// ---------- requests whose write fails ----------
+// A content message whose write fails (transport error, request that cannot be encoded) has
+// consumed its msg_id and seq_no: later messages must not reuse them.
+
+type faultOp struct {
+	Content bool `json:"content"`
+	// "" | "send" (transport write error) | "encode" (request does not encode) |
+	// "resend" (content only: written once, not answered, the retransmission's write fails)
+	Fault string `json:"fault"`
+}
+
+type badBody struct{}
+
+func (badBody) Encode(*bin.Buffer) error { return fmt.Errorf("scripted encode failure") }
+func (badBody) TypeID() uint32           { return contentType }
+
+type faultResult struct {
+	connResult
+	Mask []bool
+}
+
+func runConnFaults(seed uint64, ops []faultOp) (res faultResult) {
+	r := hx.NewRand(seed)
+	var (
+		cmu  sync.Mutex
+		used []int64
+	)
+	cur := int64(1_704_067_200_000_000_000)
+	now := func() time.Time {
+		cmu.Lock()
+		defer cmu.Unlock()
+		cur += int64(r.Range(0, 3000))
+		used = append(used, cur)
+		return time.Unix(0, cur)
+	}
+	env := mtx.NewEnv(r.Fork(), mtx.Config{MessageID: proto.NewMessageIDGen(now), Salt: 77, Options: func(o *mtproto.Options) {
+		o.RequestTimeout = func(uint32) time.Duration { return 100 * time.Millisecond }
+	}})
+	defer env.Close()
+	stop, peerDone := make(chan struct{}), make(chan struct{})
+	seen := make(chan uint32, 256) // type ids of the frames the peer has processed
+	var mute atomic.Bool           // do not answer (the request will be retransmitted)
+	var frames []mtx.Frame
+	handle := func(raw []byte) {
+		f, err := env.Decode(raw)
+		if err != nil {
+			return
+		}
+		frames = append(frames, f)
+		select {
+		case seen <- f.TypeID:
+		default:
+		}
+		if f.TypeID == contentType && !mute.Load() {
+			var pb bin.Buffer
+			_ = (&mt.RPCAnswerUnknown{}).Encode(&pb)
+			_ = env.Reply(&proto.Result{RequestMessageID: f.MsgID, Result: pb.Copy()})
+		}
+	}
+	go func() {
+		defer close(peerDone)
+		for {
+			select {
+			case raw := <-env.Pipe.Sent:
+				handle(raw)
+			case <-stop:
+				for { // frames of fire-and-forget service messages may still be queued
+					select {
+					case raw := <-env.Pipe.Sent:
+						handle(raw)
+					default:
+						return
+					}
+				}
+			}
+		}
+	}()
+	for i, o := range ops {
+		if o.Fault == "send" {
+			env.Pipe.SetFail(fmt.Errorf("scripted transport write error"))
+		}
+		ctx, cancel := context.WithTimeout(env.Ctx, 3*time.Second)
+		var err error
+		switch {
+		case o.Content && o.Fault == "resend":
+			mute.Store(true)
+			for len(seen) > 0 {
+				<-seen
+			}
+			ret := make(chan error, 1)
+			go func() {
+				var out mt.RPCAnswerUnknown
+				ret <- env.Conn.Invoke(ctx, &mt.PingRequest{PingID: 5}, &out)
+			}()
+			onWire := make(chan struct{})
+			quit := make(chan struct{})
+			go func() { // frames of earlier fire-and-forget service messages may still be trickling in
+				for {
+					select {
+					case t := <-seen:
+						if t == contentType {
+							close(onWire)
+							return
+						}
+					case <-quit:
+						return
+					}
+				}
+			}()
+			select {
+			case <-onWire: // first transmission is on the wire
+				env.Pipe.SetFail(fmt.Errorf("scripted transport write error"))
+				deadline := time.After(2500 * time.Millisecond)
+			travel:
+				for { // fire the engine's retry timer (fake clock) until the retransmission fails
+					env.Clock.Travel(6 * time.Second)
+					select {
+					case err = <-ret:
+						break travel
+					case <-deadline:
+						err = <-ret
+						break travel
+					case <-time.After(5 * time.Millisecond):
+					}
+				}
+			case err = <-ret:
+			}
+			close(quit)
+			mute.Store(false)
+		case o.Content && o.Fault == "encode":
+			var out mt.RPCAnswerUnknown
+			err = env.Conn.Invoke(ctx, badBody{}, &out)
+		case o.Content:
+			var out mt.RPCAnswerUnknown
+			err = env.Conn.Invoke(ctx, &mt.PingRequest{PingID: 5}, &out)
+		case o.Fault == "encode":
+			err = env.Conn.VerifWriteServiceMessage(ctx, badBody{})
+		default:
+			err = env.Conn.VerifWriteServiceMessage(ctx, &mt.MsgsAck{MsgIDs: []int64{4}})
+		}
+		cancel()
+		env.Pipe.SetFail(nil)
+		ok := o.Fault == ""
+		if ok != (err == nil) {
+			res.Err = fmt.Sprintf("request %d (fault %q) returned %v", i, o.Fault, err)
+			break
+		}
+		res.Mask = append(res.Mask, ok || (o.Content && o.Fault == "resend"))
+		res.Kinds = append(res.Kinds, o.Content)
+	}
+	close(stop)
+	<-peerDone
+	res.Clocks = used
+	for _, f := range frames {
+		res.IDs = append(res.IDs, f.MsgID)
+		res.Seqs = append(res.Seqs, int64(f.SeqNo))
+	}
+	return
+}
+
+// oracleFaults: seq_no of every written frame = 2k (+1 for content), k = number of EARLIER
+// content requests, including those whose write failed; ids strictly increasing.
+func oracleFaults(ops []faultOp, res faultResult) (sig, desc string) {
+	k, j := int64(0), 0
+	for i, o := range ops {
+		if i >= len(res.Mask) {
+			break
+		}
+		if res.Mask[i] {
+			if j >= len(res.Seqs) {
+				return "frame-missing", fmt.Sprintf("request %d succeeded but no frame was written", i)
+			}
+			want := 2 * k
+			if o.Content {
+				want++
+			}
+			if res.Seqs[j] != want {
+				return "wrong-seqno", fmt.Sprintf("request %d (content=%v) was written with seq_no %d, want %d: %d content messages were created before it (failed writes included)", i, o.Content, res.Seqs[j], want, k)
+			}
+			if j > 0 && res.IDs[j] <= res.IDs[j-1] {
+				return "non-increasing-id", fmt.Sprintf("request %d was written with msg_id %d after %d", i, res.IDs[j], res.IDs[j-1])
+			}
+			j++
+		}
+		if o.Content {
+			k++
+		}
+	}
+	if j != len(res.Seqs) {
+		return "unexpected-frame", fmt.Sprintf("%d frames written for %d successful requests", len(res.Seqs), j)
+	}
+	return "", ""
+}
+
+// ---------- one generator shared by several goroutines ----------
+// Options.MessageID is documented as shareable between connections: New must be atomic.
+func runShared(clockNs int64, coarseEvery int, g, m int) []int64 {
+	var calls atomic.Int64
+	gen := proto.NewMessageIDGen(func() time.Time {
+		n := calls.Add(1)
+		if coarseEvery > 0 {
+			return time.Unix(0, clockNs+(n/int64(coarseEvery))*1_000_000)
+		}
+		return time.Unix(0, clockNs)
+	})
+	out := make([][]int64, g)
+	var wg sync.WaitGroup
+	var goFlag atomic.Bool
+	for w := 0; w < g; w++ {
+		wg.Add(1)
+		go func(w int) {
+			defer wg.Done()
+			for !goFlag.Load() {
+			}
+			for i := 0; i < m; i++ {
+				out[w] = append(out[w], gen.New(proto.MessageFromClient))
+			}
+		}(w)
+	}
+	goFlag.Store(true)
+	wg.Wait()
+	var all []int64
+	for _, l := range out {
+		all = append(all, l...)
+	}
+	sort.Slice(all, func(i, j int) bool { return all[i] < all[j] })
+	return all
+}
+
 func main() {
 	c := hx.Start("C08", "Run.Check_C08", 110)
 
@@ -332,7 +562,7 @@ func main() {
 			return
 		}
 		js := map[string]interface{}{"clocks": clocks, "ids": ids}
-		sh, ix := c.Case(hx.Tuple(hx.ZList(clocks), hx.ZList(ids), "[]", "[]"), js)
+		sh, ix := c.Case(hx.Tuple(hx.ZList(clocks), hx.ZList(ids), "[]", "[]", "[]"), js)
 		for i := 1; i < len(clocks); i++ {
 			if d := clocks[i] - clocks[i-1]; d < 4 {
 				c.Nontrivial(fmt.Sprint(clocks))
@@ -364,7 +594,7 @@ func main() {
 			return
 		}
 		js := map[string]interface{}{"conn_seed": seed, "workers": workers, "ops": ops, "ids": res.IDs, "seqs": res.Seqs}
-		sh, ix := c.Case(hx.Tuple(hx.ZList(res.Clocks), hx.ZList(res.IDs), coqBools(res.Kinds), hx.ZList(res.Seqs)), js)
+		sh, ix := c.Case(hx.Tuple(hx.ZList(res.Clocks), hx.ZList(res.IDs), coqBools(res.Kinds), hx.ZList(res.Seqs), "[]"), js)
 		c.Nontrivial(fmt.Sprintf("conn%d/%d/%d", seed, workers, ops))
 		if sig, desc := oracleIDs(res.Clocks, res.IDs); sig != "" {
 			c.Violate(sig, "Conn frames in msg_id order: "+desc, sh, ix, rp)
@@ -374,13 +604,85 @@ func main() {
 		}
 	}
 
+	faultCase := func(kind string, seed uint64, ops []faultOp) {
+		c.Obs.Evaluations++
+		c.Count("conn-faults:" + kind)
+		rp := map[string]interface{}{"fault_seed": seed, "fault_ops": ops}
+		var res faultResult
+		if !mtx.Watchdog(60*time.Second, func() { res = runConnFaults(seed, ops) }, nil) {
+			c.Violate("scenario-hang", "Conn run with failing writes did not finish within 60 s", -1, 0, rp)
+			return
+		}
+		if res.Err != "" {
+			c.Violate("conn-run-failed", "Conn: "+res.Err, -1, 0, rp)
+			return
+		}
+		sh, ix := c.Case(hx.Tuple(hx.ZList(res.Clocks), hx.ZList(res.IDs), coqBools(res.Kinds), hx.ZList(res.Seqs), coqBools(res.Mask)),
+			map[string]interface{}{"fault_seed": seed, "fault_ops": ops, "ids": res.IDs, "seqs": res.Seqs})
+		c.Nontrivial(fmt.Sprint("faults", seed, ops))
+		if sig, desc := oracleFaults(ops, res); sig != "" {
+			c.Violate(sig, "Conn with failing writes: "+desc, sh, ix, rp)
+		}
+	}
+	sharedCase := func(kind string, clockNs int64, coarse, g, m int) {
+		c.Obs.Evaluations++
+		c.Count("shared-gen:" + kind)
+		rp := map[string]interface{}{"shared_clock": clockNs, "coarse": coarse, "goroutines": g, "calls": m}
+		var all []int64
+		if !mtx.Watchdog(30*time.Second, func() { all = runShared(clockNs, coarse, g, m) }, nil) {
+			c.Violate("scenario-hang", "shared generator run did not finish within 30 s", -1, 0, rp)
+			return
+		}
+		sh, ix := -1, 0
+		if coarse == 0 && g*m <= 64 { // frozen clock: the sorted ids are those of the sequential model
+			clocks := make([]int64, g*m)
+			for i := range clocks {
+				clocks[i] = clockNs
+			}
+			sh, ix = c.Case(hx.Tuple(hx.ZList(clocks), hx.ZList(all), "[]", "[]", "[]"), rp)
+		}
+		for i := 1; i < len(all); i++ {
+			if all[i] == all[i-1] {
+				c.Violate("dup-id", fmt.Sprintf("%d goroutines sharing one MessageIDGen (clock %s): id %d was returned twice", g, kind, all[i]), sh, ix, rp)
+				return
+			}
+		}
+		if len(all) != g*m {
+			c.Violate("id-count", fmt.Sprintf("%d ids for %d calls", len(all), g*m), sh, ix, rp)
+		}
+	}
 	var rp struct {
-		Clocks   []int64 `json:"clocks"`
-		ConnSeed uint64  `json:"conn_seed"`
-		Workers  int     `json:"workers"`
-		Ops      int     `json:"ops"`
+		FaultSeed   uint64    `json:"fault_seed"`
+		FaultOps    []faultOp `json:"fault_ops"`
+		SharedClock int64     `json:"shared_clock"`
+		Coarse      int       `json:"coarse"`
+		Goroutines  int       `json:"goroutines"`
+		Calls       int       `json:"calls"`
+		Clocks      []int64   `json:"clocks"`
+		ConnSeed    uint64    `json:"conn_seed"`
+		Workers     int       `json:"workers"`
+		Ops         int       `json:"ops"`
 	}
 	if c.LoadReplay(&rp) {
+		if len(rp.FaultOps) > 0 {
+			res := runConnFaults(rp.FaultSeed, rp.FaultOps)
+			sig, desc := oracleFaults(rp.FaultOps, res)
+			fmt.Printf("replay: conn with failing writes ids=%v seqs=%v mask=%v err=%q oracle=%q %s\n", res.IDs, res.Seqs, res.Mask, res.Err, sig, desc)
+			faultCase("replay", rp.FaultSeed, rp.FaultOps)
+			c.Finish()
+			return
+		}
+		if rp.Goroutines > 0 {
+			for try := 0; try < 200; try++ { // the schedule is not controlled: bounded retries
+				sharedCase("replay", rp.SharedClock, rp.Coarse, rp.Goroutines, rp.Calls)
+				if len(c.Obs.Violations) > 0 {
+					break
+				}
+			}
+			fmt.Printf("replay: shared generator, violations=%d\n", len(c.Obs.Violations))
+			c.Finish()
+			return
+		}
 		if len(rp.Clocks) > 0 {
 			ids := runGen(rp.Clocks)
 			sig, desc := oracleIDs(rp.Clocks, ids)
@@ -423,6 +725,38 @@ func main() {
 		cl, k := genClocks(c.Rng)
 		genCase(k, cl)
 	}
+	// one generator shared by several goroutines under a frozen / coarse clock
+	for i := 0; i < c.N(60, 1500); i++ {
+		g := c.Rng.Range(2, 8)
+		clock := int64(1_700_000_000_000_000_000) + int64(c.Rng.Intn(1000))
+		switch c.Rng.Intn(3) {
+		case 0: // small: also compared with the sequential model
+			sharedCase("frozen", clock, 0, g, 64/g)
+		case 1: // long bursts: many overlapping calls
+			sharedCase("frozen-burst", clock, 0, g, c.Rng.Range(2000, 6000))
+		default:
+			sharedCase("coarse", clock, c.Rng.Range(2, 40), g, c.Rng.Range(1000, 4000))
+		}
+	}
+	// requests whose write fails between successful ones (sequential, so that the order is known)
+	faultCase("corpus", 9, []faultOp{{true, ""}, {true, "send"}, {true, ""}, {false, ""}, {true, "encode"}, {true, ""}, {false, "send"}, {true, ""}, {true, "resend"}, {true, ""}, {false, ""}})
+	for i := 0; i < c.N(25, 500); i++ {
+		ops := make([]faultOp, c.Rng.Range(3, 14))
+		for j := range ops {
+			ops[j].Content = c.Rng.Chance(2, 3)
+			switch c.Rng.Intn(5) {
+			case 0:
+				ops[j].Fault = "send"
+			case 1:
+				ops[j].Fault = "encode"
+			case 2:
+				if ops[j].Content && c.Rng.Bool() {
+					ops[j].Fault = "resend"
+				}
+			}
+		}
+		faultCase("random", c.Rng.U64(), ops)
+	}
 	// real Conn, sequential then concurrent
 	for i := 0; i < c.N(10, 100); i++ {
 		connCase("sequential", c.Rng.U64(), 1, c.Rng.Range(1, 30))
@@ -430,6 +764,6 @@ func main() {
 	for i := 0; i < c.N(30, 600); i++ {
 		connCase("concurrent", c.Rng.U64(), 8, c.Rng.Range(2, 8))
 	}
-	c.Obs.Rule = "MessageIDGen cases: scripted clock sequences (corpus incl. the repaired 1000/1001 ns witness, all 4-step patterns over steps {-5,0,1,3,4,9} at two bases, steps back by 1 s..1 day after a burst of ids, random sequences of <=24 readings over frozen/backward/+1..3 ns/coarse steps and steps of every magnitude 1 ns..hours in both directions at small, realistic and second-boundary bases); non-trivial = distinct sequence containing a step below 4 ns (frozen, backwards or sub-resolution). Conn cases: frames written by a real Conn, 1 or 8 goroutines mixing Invoke and service messages, taken in msg_id order; each distinct run counts"
+	c.Obs.Rule = "MessageIDGen cases: scripted clock sequences (corpus incl. the repaired 1000/1001 ns witness, all 4-step patterns over steps {-5,0,1,3,4,9} at two bases, steps back by 1 s..1 day after a burst of ids, random sequences of <=24 readings over frozen/backward/+1..3 ns/coarse steps and steps of every magnitude 1 ns..hours in both directions at small, realistic and second-boundary bases); non-trivial = distinct sequence containing a step below 4 ns (frozen, backwards or sub-resolution). Conn cases: frames written by a real Conn, 1 or 8 goroutines mixing Invoke and service messages, taken in msg_id order; each distinct run counts. Also: one MessageIDGen shared by 2..8 goroutines under a frozen or coarse clock (frozen: sorted ids compared with the sequential model), and sequential Conn runs in which some writes fail (transport error, request that does not encode) between successful ones"
 	c.Finish()
 }
